@@ -76,3 +76,65 @@ Example c01_history :
   ∧ ssort (filter nonempty (walk (levels "a/x") (run ops))) = ["s1"]
   ∧ ssort (filter nonempty (walk (levels "/x") (run ops))) = ["s4"].
 Proof. vm_compute. done. Qed.
+
+From Wasp Require Import Proofs.Qos2Facts Proofs.StepFacts.
+(** The step as a whole.  From every cluster state in which the log consumers have caught up
+    ([quiescent]) and nothing is failing ([healthy]), a QoS 0/1 PUBLISH from a live session makes
+    the cluster produce: Distribute's appends and calls, the acknowledgement, the keep-alive
+    re-arm, and then, node by node, exactly what that node's writer sends for this one log entry
+    to the recipients ByPattern names there — for the nodes that are among the publisher's
+    destinations, and nothing for any other node.  Which entries ByPattern names is
+    [by_pattern_exact]; what [send] writes per recipient is [deliver_exact] /
+    [deliver_to_no_other] (and C02's [qos_recipient_is_written]).  The second statement spells the
+    composition out for QoS 0 subscriptions: one PUBLISH per matching added subscription hosted on
+    that node whose session is registered there, on that session's connection, and nothing else. *)
+Theorem publish_step_writes_exactly : ∀ seen cl c k s p dup mid clk,
+  find_conn cl c = Some k → c_closed k = false → c_sid k = Some (ss_id s) →
+  alookup (ss_id s) (n_reg (getn cl (c_node k))) = Some s →
+  quiescent cl → healthy cl → p_retain p = false → (p_qos p = 0 ∨ p_qos p = 1)%Z →
+  let i := c_node k in
+  let m := LMsg (prefix_mp (ss_mp s) (p_topic p)) (p_payload p) (p_qos p) false dup in
+  Forall (λ d, 1 ≤ d)%Z (dests_of cl i m) →
+  ∃ stores, quiet (λ x, negb (is_store x)) stores ∧
+    (step seen cl (EPublish c p dup mid clk)).2 =
+      (stores ++ (if (p_qos p =? 1)%Z then wout (cl_bad cl) c (OPubAck mid) else []) ++ dl s ++
+       flat_map (λ j, if dest_here cl i m j then deliveries (cl_bad cl) (app_node (getn cl j) m) m else []) (seq 0 (nlen cl)))%list.
+Proof. exact publish_step_spec. Qed.
+Print Assumptions publish_step_writes_exactly.
+
+Theorem publish_step_writes_exactly_q0 : ∀ seen cl c k s p dup mid clk,
+  find_conn cl c = Some k → c_closed k = false → c_sid k = Some (ss_id s) →
+  alookup (ss_id s) (n_reg (getn cl (c_node k))) = Some s →
+  quiescent cl → healthy cl → p_retain p = false → (p_qos p = 0 ∨ p_qos p = 1)%Z →
+  let i := c_node k in
+  let m := LMsg (prefix_mp (ss_mp s) (p_topic p)) (p_payload p) (p_qos p) false dup in
+  Forall (λ d, 1 ≤ d)%Z (dests_of cl i m) →
+  (∀ j u, (j < nlen cl)%nat → u ∈ sub_by_pattern (n_d (getn cl j)) (l_topic m) → s_qos u = 0%Z) →
+  ∃ stores, quiet (λ x, negb (is_store x)) stores ∧
+    (step seen cl (EPublish c p dup mid clk)).2 =
+      (stores ++ (if (p_qos p =? 1)%Z then wout (cl_bad cl) c (OPubAck mid) else []) ++ dl s ++
+       flat_map (λ j, if dest_here cl i m j
+                      then flat_map (q0_out (cl_bad cl) (getn cl j) m) (local_recips (getn cl j) (l_topic m)) else [])
+                (seq 0 (nlen cl)))%list.
+Proof. exact publish_step_q0_exact. Qed.
+Print Assumptions publish_step_writes_exactly_q0.
+
+(** the premises are met by a reachable two-node state, and the step then writes what it should:
+    one copy per matching filter of the subscriber on the other node, none for "b" *)
+Example publish_step_premises_hold :
+  let ops := [EConnect 1%nat "sub" "c-sub" "" "" 60%Z None 10%Z; ESubscribe "sub" 1%Z [("a/#", 0%Z); ("a/+", 0%Z); ("b", 0%Z)] 20%Z;
+              EGossip 1%nat 0%nat; EConnect 0%nat "pub" "c-pub" "" "" 60%Z None 30%Z] in
+  let cl := fold_left (λ st o, (step [] st o).1) ops (cnew 2%nat) in
+  quiescent cl ∧ healthy cl ∧
+  (∃ k s, find_conn cl "pub" = Some k ∧ c_closed k = false ∧ alookup "s002" (n_reg (getn cl (c_node k))) = Some s ∧ c_sid k = Some (ss_id s) ∧
+          dests_of cl (c_node k) (LMsg (prefix_mp (ss_mp s) "a/x") "hello" 1%Z false false) = [2%Z]) ∧
+  (step [] cl (EPublish "pub" (Publish "a/x" "hello" 1%Z false false) false 7%Z 40%Z)).2 =
+    [Appended 1%nat "_default/a/x" "hello" 1%Z false; Call 0%nat 1%nat true; Out "pub" (OPubAck 7%Z); Deadline "pub" 120000%Z;
+     Out "sub" (OPublish "a/x" "hello" 0%Z false false 0%Z); Out "sub" (OPublish "a/x" "hello" 0%Z false false 0%Z)].
+Proof.
+  cbv zeta. split; [|split; [|split]].
+  - intros [|[|j]] Hj; [vm_compute; done..|]. vm_compute in Hj. lia.
+  - split; [vm_compute; done|]. intros [|[|[|j]]]; vm_compute; done.
+  - eexists _, _. vm_compute. repeat split; reflexivity.
+  - vm_compute. done.
+Qed.
